@@ -49,7 +49,8 @@ ASSUMPTIONS = ['only the Mermaid backend exists in this sandbox (python modules 
                'label keyword; compound states added after construction are in the envelope for every class since D43); '
                '20 % of the cases run on LockedGraphMachine / LockedHierarchicalGraphMachine '
                '(same synchronous runner, one thread)',
-               'transitions are registered at the root scope with full state names or declared inside the definition of a '
+               '30 % of the hierarchical cases use a state class with another separator (".", "/", "\u21a6") and '
+               'auto_transitions=False; transitions are registered at the root scope with full state names or declared inside the definition of a '
                'compound state (relative names; the triggers of one scope are used in no other scope: no mixed-scope '
                'precedence; state names are distinct over the whole machine, see the final report on relative names in '
                'the previous style); tags and timeout state '
@@ -141,13 +142,17 @@ def _trans(rng, paths, val, trig=None):
     return t
 
 
+# separator of nested state names used while a case runs on the library (NestedState.separator of the case's state class)
+_SEP = ['_']
+
+
 def _full_text(forest, path):
     out = []
     for i in path:
         nd = [n for n in forest if n['id'] == i][0]
         out.append(nd['text'])
         forest = nd['kids']
-    return '_'.join(out)
+    return _SEP[0].join(out)
 
 
 def gen(rng, i, tier):
@@ -178,6 +183,11 @@ def gen(rng, i, tier):
     # manages the same model under 'state' (sharing the top-level state names, resting in some state)
     # the diagrams are fetched with the model's get_graph or with the machine's (get_combined_graph alias)
     case['via'] = 'machine' if rng.random() < 0.5 else 'model'
+    # hierarchical machines whose state class uses another separator than '_' (no automatic transitions then: the
+    # model builds the names of the to_<state> events with '_')
+    case['sep'] = rng.choice(['.', '/', u'\u21a6']) if (hsm and rng.random() < 0.3) else '_'
+    if case['sep'] != '_':
+        case['autos'] = False
     case['mattr'] = 'state' if rng.random() < 0.6 else rng.choice(['phase', 'mode'])
     case['decoy'] = rng.choice(forest)['id'] if (case['mattr'] != 'state' and rng.random() < 0.5) else None
     if case['mattr'] != 'state' and not hsm:
@@ -393,7 +403,7 @@ class _Names(object):
     def path(self, text):
         out = []
         forest = self.forest
-        for part in text.split('_'):
+        for part in text.split(_SEP[0]):
             nd = [n for n in forest if n['text'] == part]
             if not nd:
                 return [999, ] + _s(text)      # a name that is no state of the machine
@@ -493,6 +503,14 @@ def _state_cfg(nd, hsm, scoped=(), pfx=()):
 
 
 def impl(case):
+    _SEP[0] = case.get('sep', '_')
+    try:
+        return _impl(case)
+    finally:
+        _SEP[0] = '_'
+
+
+def _impl(case):
     tr = _import_transitions()
     from transitions.extensions import GraphMachine, HierarchicalGraphMachine
     from transitions.extensions.nesting import NestedState
@@ -511,6 +529,8 @@ def impl(case):
             super(LState, self).__init__(*args, **kwargs)
 
     class LNested(NestedState):
+        separator = case.get('sep', '_')
+
         def __init__(self, *args, **kwargs):
             self.label = kwargs.pop('label', None)
             super(LNested, self).__init__(*args, **kwargs)
@@ -537,6 +557,8 @@ def impl(case):
                 super(LAState, self).__init__(*args, **kwargs)
 
         class LANested(NestedAsyncState):
+            separator = case.get('sep', '_')
+
             def __init__(self, *args, **kwargs):
                 self.label = kwargs.pop('label', None)
                 super(LANested, self).__init__(*args, **kwargs)
@@ -782,6 +804,8 @@ def stats(case, obs, dist):
         inc('with_regenerating_callbacks')
     inc('class_' + case.get('cls', 'sync'))
     inc('graphs_via_' + case.get('via', 'model'))
+    if case.get('sep', '_') != '_':
+        inc('custom_separator')
     if case.get('mattr', 'state') != 'state':
         inc('custom_model_attribute')
     if case.get('decoy') is not None:
